@@ -98,6 +98,7 @@ func plan(tier string, seed int64) []sup.Batch {
 		add(sup.Chunk("adapt-"+v, "adapt-"+v, nAdapt, (nAdapt+3)/4, 1, map[string]any{"variant": v}))
 		add(sup.Chunk("special-"+v, "special-"+v, nRand/4, (nRand/4+1)/2, 1, map[string]any{"variant": v}))
 		add(sup.Chunk("reuse-"+v, "reuse-"+v, nRand/4, (nRand/4+1)/2, 1, map[string]any{"variant": v}))
+		add(sup.Chunk("two-"+v, "two-"+v, nRand/8, nRand/8, 1, map[string]any{"variant": v}))
 	}
 	nn := nameTotal(nameLen)
 	const nameBlk = 4000
@@ -136,6 +137,15 @@ var sshEntrypoint = catPath + " /proc/self/environ > ../env" // absolute: a conf
 
 // buildScript returns the start-up script of the variant for e.
 func buildScript(variant string, e commservices.Environments) ([]byte, error) {
+	rd, err := scriptReader(variant, e)
+	if err != nil {
+		return nil, err
+	}
+	return io.ReadAll(rd)
+}
+
+// scriptReader returns the reader the library hands to the sandbox (not yet read).
+func scriptReader(variant string, e commservices.Environments) (io.Reader, error) {
 	var (
 		rd  io.Reader
 		err error
@@ -153,7 +163,7 @@ func buildScript(variant string, e commservices.Environments) ([]byte, error) {
 	if err != nil {
 		return nil, err
 	}
-	return io.ReadAll(rd)
+	return rd, nil
 }
 
 // tail returns the harness lines that follow the script on the shell's stdin.
@@ -660,6 +670,7 @@ func main() {
 			"rand: random maps of 1…40 variables with hostile values (command substitutions creating canary files, $OTHER references, EOF-like lines, assignments, trailing newlines, control and non-ASCII bytes, values above one pipe buffer), each run twice with one variable changed; " +
 			"special: maps that configure PATH (every other case: a directory list without the standard utilities, empty, relative …), IFS, HOME, ENV, CDPATH, LANG … next to 1…5 ordinary variables – every variable must still arrive, whatever the order of assignment; " +
 			"reuse: one Environments object through 2–3 generations (build a script, change one variable and add one with Set – now and then SetAll –, build the next script): every script sets what is configured when it is built; " +
+			"two: the scripts of two environments are built one after the other and only then read and run, the first one first; " +
 			"adapt: values that contain the here-document terminators observed in earlier scripts of the same process; " +
 			"names: every name of length ≤ N (3 quick / 4 thorough) over a 24-symbol alphabet plus random longer ones through Set and SetAll; " +
 			"distinct = distinct (variant, map) / blocks, non-trivial = some value holds a shell-significant character",
@@ -685,6 +696,8 @@ func main() {
 				runSpecial(c, b)
 			case strings.HasPrefix(b.Kind, "reuse-"):
 				runReuse(c, b)
+			case strings.HasPrefix(b.Kind, "two-"):
+				runTwoScripts(c, b)
 			case b.Kind == "names-exh":
 				runNamesExh(c, b)
 			case b.Kind == "names-rand":
@@ -696,7 +709,7 @@ func main() {
 		Finish: func(t *sup.Totals) string {
 			var missing []string
 			for _, k := range []string{"shell_runs", "vars_checked_container", "vars_checked_ssh", "exh_values_container", "exh_values_ssh",
-				"child_environments_read", "values_with_canary_command", "independence_pairs", "adapt_runs", "maps_that_configure_PATH", "scripts_built_after_a_later_Set_container", "scripts_built_after_a_later_Set_ssh", "maps_with_a_variable_the_shell_interprets_container", "maps_with_a_variable_the_shell_interprets_ssh", "names_checked", "nonidentifier_names_rejected", "plain_names_accepted"} {
+				"child_environments_read", "values_with_canary_command", "independence_pairs", "adapt_runs", "maps_that_configure_PATH", "scripts_built_after_a_later_Set_container", "scripts_built_after_a_later_Set_ssh", "pairs_of_scripts_built_before_either_was_read_container", "pairs_of_scripts_built_before_either_was_read_ssh", "maps_with_a_variable_the_shell_interprets_container", "maps_with_a_variable_the_shell_interprets_ssh", "names_checked", "nonidentifier_names_rejected", "plain_names_accepted"} {
 				if t.Obs[k] == 0 {
 					missing = append(missing, k)
 				}
